@@ -46,9 +46,9 @@ def make(route, scheme, ui, host, port):
         # RFC 3986: port = *DIGIT, leading zeros are legal; a pre-encoded URL keeps the authority as written
         return U(pre + uitext + written + ("" if port is None else ":00%d" % port) + "/p?q#f", encoded=True)
     if route == "build_hp":
-        return U.build(scheme=scheme.lower(), user=user, password=pw, host=bare, port=port, path="/p")
+        return U.build(scheme=scheme, user=user, password=pw, host=bare, port=port, path="/p")
     if route == "build_auth":
-        return U.build(scheme=scheme.lower(), authority=uitext + written + ("" if port is None else ":%d" % port), path="/p")
+        return U.build(scheme=scheme, authority=uitext + written + ("" if port is None else ":%d" % port), path="/p")
     if route == "with_port":
         return U(pre + uitext + written + "/p?q#f").with_port(port)
     if route == "with_port_replace":
